@@ -748,7 +748,7 @@ type vsResult struct {
 	Drift string      `json:"drift,omitempty"`
 }
 
-func vsReplay(idx int, hist []vsStep, c vsConc, maxT int, full bool, stats *vsStats) (res vsResult) {
+func vsReplay(idx int, hist []vsStep, c vsConc, maxT int, full, tail bool, stats *vsStats) (res vsResult) {
 	res = vsResult{I: idx, R: "ok", Conc: c}
 	r := &vsRunner{c: c, writers: map[string]*Writer{}, wchans: map[string][]string{}, maxT: maxT, stats: stats}
 	defer func() {
@@ -800,7 +800,9 @@ func vsReplay(idx int, hist []vsStep, c vsConc, maxT int, full bool, stats *vsSt
 		if st.A == "gc" || st.A == "reopen" {
 			// nothing may change: compare against the same expected state (St is unchanged)
 		}
-		if m := r.compareReads(i, st, full); m != nil {
+		// tail mode (bounded-exhaustive session histories, whose prefixes are shared by many
+		// histories): every range on the last three steps, a third of the ranges before
+		if m := r.compareReads(i, st, full && (!tail || i >= len(hist)-3)); m != nil {
 			res.R = "mismatch"
 			res.M = m
 			return
@@ -826,6 +828,7 @@ func TestVerifStoreReplay(t *testing.T) {
 		nconc = 1
 	}
 	full := os.Getenv("VERIF_FULLREADS") != "0"
+	tail := os.Getenv("VERIF_FULLREADS") == "tail"
 	var fixed *vsConc
 	if s := os.Getenv("VERIF_CONC"); s != "" {
 		fixed = &vsConc{}
@@ -861,7 +864,7 @@ func TestVerifStoreReplay(t *testing.T) {
 					if fixed != nil {
 						c = *fixed
 					}
-					res := vsReplay(j.i, hist, c, maxT, full, stats)
+					res := vsReplay(j.i, hist, c, maxT, full, tail, stats)
 					results <- res
 					if res.R != "ok" {
 						break
